@@ -39,7 +39,9 @@ Tr == T.traces[tid]
 Ev == Tr.log[l]
 
 TraceInit == /\ tid \in 1..Len(T.traces) /\ l = 1 /\ verdict = "ok"
-             /\ InitAt(T.traces[tid].now0) /\ tw = T.traces[tid].now0
+             /\ (IF T.traces[tid].resumed THEN InitResumed(T.traces[tid].init, T.traces[tid].now0, T.traces[tid].next0)
+                                        ELSE InitAt(T.traces[tid].now0))
+             /\ tw = T.traces[tid].now0
              /\ sleepTo = T.traces[tid].now0 /\ freezeTo = T.traces[tid].now0
 
 Fail(c) == /\ verdict' = c /\ UNCHANGED <<vars, tid, l, aux>>
